@@ -79,12 +79,13 @@ func c33Scenarios() []c33Scenario {
 	r3 := c33Spec{kind: "P3", role: "r3"}
 	single := c33Spec{kind: "S-", singleton: true}
 	nonrel := c33Spec{kind: "N-", nonReloc: true}
+	// small scenarios first: ExploreAll hands the time they leave over to the later (larger) ones
 	scs := []c33Scenario{
-		{name: "two-peers", survivors: [][]string{nil, nil, nil}, actors: c33Repeat(plain, 4), grains: 3, dups: 2, bound: bound},
-		{name: "one-peer-mixed", survivors: [][]string{nil, nil}, actors: append(c33Repeat(plain, 3), single, r3, nonrel), grains: 2, dups: 2, bound: 2},
-		{name: "roles", survivors: [][]string{nil, {"r1"}, {"r1"}}, actors: c33Repeat(r1, 2), grains: 0, dups: 1, bound: 2},
 		{name: "no-peer", survivors: [][]string{nil}, actors: append(c33Repeat(plain, 2), single), grains: 1, dups: 2, bound: 2},
 		{name: "two-peers-clean-registry", survivors: [][]string{nil, nil, nil}, actors: c33Repeat(plain, 3), grains: 0, clean: true, dups: 1, bound: bound},
+		{name: "roles", survivors: [][]string{nil, {"r1"}, {"r1"}}, actors: c33Repeat(r1, 2), grains: 0, dups: 1, bound: 2},
+		{name: "one-peer-mixed", survivors: [][]string{nil, nil}, actors: append(c33Repeat(plain, 3), single, r3, nonrel), grains: 2, dups: 2, bound: 2},
+		{name: "two-peers", survivors: [][]string{nil, nil, nil}, actors: c33Repeat(plain, 4), grains: 3, dups: 2, bound: bound},
 	}
 	if vsched.Rep().Thorough() {
 		scs = append(scs,
